@@ -12,7 +12,7 @@ identity root (IHR) of the plan node each term node comes from; pruned plan = `p
 `inferM` on the pruned plan with the reachability mask: the principal types of the pruned program
 on its own (what `prune` computes since it re-infers in a context of its own; `inferM` with *all*
 nodes — the constraints of the hidden branches still in force — is what it computed before, see
-`Props.C08.stale_constraints_not_principal`), so `principal=` is always `yes` here; witnesses =
+`Props.C08.stale_constraints_above_principal`), so `principal=` is always `yes` here; witnesses =
 `pruneV` of the original values to the new target types; `cmr=` recomputed on the pruned plan;
 `antidos=` on the model's own run of the pruned plan: every reachable node executed and both
 sides of every remaining case taken. -/
